@@ -91,14 +91,17 @@ def powSlow (b : UInt64) : Nat → UInt64
   | 0 => 1
   | n + 1 => powSlow b n * b
 
-/-- square and multiply -/
-def powFast (b : UInt64) (n : Nat) : UInt64 :=
-  if n = 0 then 1
-  else
-    let r := powFast (b * b) (n / 2)
-    if n % 2 = 1 then r * b else r
-termination_by n
-decreasing_by omega
+/-- square and multiply; the fuel (`n` itself is enough: the exponent halves at every step) keeps
+the recursion structural, so the kernel can evaluate it -/
+def powAux : Nat → UInt64 → Nat → UInt64
+  | 0, _, _ => 1
+  | fuel + 1, b, n =>
+    if n = 0 then 1
+    else
+      let r := powAux fuel (b * b) (n / 2)
+      if n % 2 = 1 then r * b else r
+
+def powFast (b : UInt64) (n : Nat) : UInt64 := powAux n b n
 
 def fnvStep (h : UInt64) (b : UInt8) : UInt64 := (h ^^^ b.toUInt64) * fnvPrime
 
